@@ -621,6 +621,11 @@ class Node:
         if not attr_node.is_mapping():
             return
 
+        if value_attribute is None:
+            for _, item_value in attr_node.yaml_node.value:
+                if not isinstance(item_value, yaml.MappingNode):
+                    return      # invalid format
+
         start_mark = attr_node.yaml_node.start_mark
         end_mark = attr_node.yaml_node.end_mark
         object_list = []
